@@ -17,15 +17,23 @@ type Clause struct {
 }
 
 type LoopC struct {
+	Vars      []string // `loop N (v1, v2):` -- loop-carried source variables this loop must have (binding check)
 	Inv       []*Clause
 	Decreases *Expr
 	Unroll    int
 	// KeepsOld ("keeps old objects"): the loop writes only objects allocated during the function; every
 	// object that existed at function entry keeps its contents (assumed at the head, proved at back edges)
 	KeepsOld bool
+	// Forgets ("forgets earlier invariants"): obligations generated inside this loop's body do not see the
+	// quantified invariants / proof steps established before the loop head was reached (the loop's own
+	// invariants must carry what the body needs). Fewer hypotheses: sound, and it keeps queries small.
+	Forgets bool
 }
 
 type AtClause struct {
+	Local    bool // `derive at <anchor>: e`: like assert, but proved WITHOUT the quantified invariants / proof steps established so far (a fact that follows from the last few statements alone; keeps its query small)
+	Cut      bool // `cut at <anchor>: e`: proved there and assumed; every quantified invariant / proof step established BEFORE is hidden from all later obligations (e summarises what the rest of the function needs)
+	Apply    bool // `apply at <anchor>: lemma(args)`: the named lemma, instantiated at these terms, is assumed there
 	Anchor string // "call <name>#k"
 	Label  string
 	E      *Expr
@@ -43,6 +51,8 @@ type Contract struct {
 	Ensures  []*Clause
 	Assigns  []*Expr
 	Allocates []*Expr
+	AbsIdx bool // `absolute positions`: quantifiers over slice indices are instantiated by absolute array position (sub-slices of one array then share instantiation patterns)
+	Deterministic bool // `deterministic`: no map iteration, channel operation, goroutine, or call of a function that is not itself declared deterministic
 	EveryLoopIterates bool // `every loop iterates`: each for/range statement of the source has a back edge (can reach a second iteration)
 	Ignores  map[string]bool // "<callee>#<label>": postconditions of callees NOT assumed inside this function (keeps quantified facts that only cause matching loops out of its queries)
 	Trusts   []*Clause // postconditions callers may assume although the function's own proof does NOT establish them (listed as assumptions)
@@ -83,6 +93,7 @@ type Lemma struct {
 	Using []string
 	Pkg   *packages.Package
 	Axiom bool
+	Induct string // name of the (integer, >= 0) variable the lemma is proved by induction on ("" = none)
 }
 
 type GhostVar struct {
@@ -123,7 +134,7 @@ func newDB() *ContractDB {
 
 var subKeywords = map[string]bool{"arith": true, "requires": true, "assumes": true, "allocates": true, "ensures": true, "assigns": true, "pure": true, "inline": true,
 	"trusted": true, "loop": true, "invariant": true, "decreases": true, "unroll": true, "assert": true, "check": true, "assume": true, "replay": true,
-	"nosafety": true, "abstract": true, "using": true, "let": true, "opaque": true, "keeps": true, "dead": true, "trusts": true, "ignores": true, "every": true}
+	"nosafety": true, "abstract": true, "using": true, "let": true, "opaque": true, "keeps": true, "dead": true, "trusts": true, "ignores": true, "every": true, "deterministic": true, "apply": true, "forgets": true, "derive": true, "cut": true, "absolute": true}
 // contract profile selected by the property being checked ("" = default contracts only)
 var activeProfile string
 var profiled = map[string]bool{}
@@ -389,6 +400,11 @@ func (db *ContractDB) loadFile(pkg *packages.Package, f *ast.File, fname string)
 			if p := strings.Index(head, "("); p >= 0 {
 				q := matchParen(head, p)
 				lm.Vars = db.parseBinders(head[p+1:q], where)
+				if tail := strings.Fields(head[q+1:]); len(tail) == 2 && tail[0] == "induction" {
+					lm.Induct = tail[1]
+				} else if len(tail) != 0 {
+					db.errf("%s: unexpected text after the binders of a lemma: %q", where, head[q+1:])
+				}
 				head = strings.TrimSpace(head[:p])
 			}
 			hf := strings.Fields(head)
@@ -499,6 +515,13 @@ func (db *ContractDB) loadFile(pkg *packages.Package, f *ast.File, fname string)
 			case "requires":
 				lb, ex := splitLabel(rest)
 				cur.Requires = append(cur.Requires, &Clause{Label: lb, E: db.mustExpr(ex, where)})
+			case "absolute":
+				if strings.TrimSpace(rest) != "positions" {
+					db.errf("%s: expected `absolute positions`", where)
+				}
+				cur.AbsIdx = true
+			case "deterministic":
+				cur.Deterministic = true
 			case "every":
 				if strings.TrimSpace(rest) == "loop iterates" {
 					cur.EveryLoopIterates = true
@@ -559,7 +582,22 @@ func (db *ContractDB) loadFile(pkg *packages.Package, f *ast.File, fname string)
 					continue
 				}
 				curLoop = &LoopC{}
+				if p := strings.Index(rest, "("); p >= 0 {
+					if q := matchParen(rest, p); q > p {
+						for _, v := range strings.Split(rest[p+1:q], ",") {
+							if v = strings.TrimSpace(v); v != "" {
+								curLoop.Vars = append(curLoop.Vars, v)
+							}
+						}
+					}
+				}
 				cur.Loops[n] = curLoop
+			case "forgets":
+				if curLoop == nil || strings.TrimSpace(rest) != "earlier invariants" {
+					db.errf("%s: expected `forgets earlier invariants` inside a loop block", where)
+					continue
+				}
+				curLoop.Forgets = true
 			case "invariant":
 				if curLoop == nil {
 					db.errf("%s: invariant outside loop", where)
@@ -598,7 +636,17 @@ func (db *ContractDB) loadFile(pkg *packages.Package, f *ast.File, fname string)
 				}
 				lb, ex := splitLabel(r[i+1:])
 				cur.Asserts = append(cur.Asserts, &AtClause{Anchor: strings.TrimSpace(r[:i]), Label: lb, E: db.mustExpr(ex, where), Assume: true})
-			case "assert", "check":
+			case "apply":
+				// apply at <anchor>: lemma(args) -- use a proved lemma at specific terms (evaluated BEFORE the
+				// ghost updates of the same anchor, so a lemma about `store(G, k, v)` can name the old G)
+				r := strings.TrimPrefix(rest, "at ")
+				i := strings.Index(r, ":")
+				if i < 0 {
+					db.errf("%s: bad apply", where)
+					continue
+				}
+				cur.Asserts = append(cur.Asserts, &AtClause{Anchor: strings.TrimSpace(r[:i]), E: db.mustExpr(r[i+1:], where), Apply: true})
+			case "assert", "check", "derive", "cut":
 				// assert at <anchor>: expr   -- proved there, then assumed for what follows (a proof step)
 				// check at <anchor>: expr    -- proved there, NOT assumed afterwards (a goal; keeps quantified
 				//                               statements of the property out of later queries)
@@ -609,7 +657,7 @@ func (db *ContractDB) loadFile(pkg *packages.Package, f *ast.File, fname string)
 					continue
 				}
 				lb, ex := splitLabel(r[i+1:])
-				cur.Asserts = append(cur.Asserts, &AtClause{Anchor: strings.TrimSpace(r[:i]), Label: lb, E: db.mustExpr(ex, where), GoalOnly: kw == "check"})
+				cur.Asserts = append(cur.Asserts, &AtClause{Anchor: strings.TrimSpace(r[:i]), Label: lb, E: db.mustExpr(ex, where), GoalOnly: kw == "check", Local: kw == "derive", Cut: kw == "cut"})
 			case "replay":
 				cur.Replay = append(cur.Replay, rest)
 			}
